@@ -43,3 +43,16 @@ func TestGuard(t *testing.T) {
 		t.Fatal("non-fault panic")
 	}
 }
+
+func TestAcross4G(t *testing.T) {
+	b := Across4G(128, 64, nil)
+	if b == nil {
+		t.Skip("no mapping at a 2^32-aligned address on this machine")
+	}
+	a0 := uintptr(unsafe.Pointer(&b[0]))
+	a1 := uintptr(unsafe.Pointer(&b[127]))
+	if a0>>32 == a1>>32 || (a0+64)&0xffffffff != 0 {
+		t.Fatalf("buffer %#x..%#x does not straddle a 2^32-aligned address", a0, a1)
+	}
+	b[0], b[127] = 1, 2
+}
